@@ -420,7 +420,23 @@ def _r6_r7(ctx, repo):
            msg=f"_resolve_fn treats the value of x/y/z as a function only if it is one of {sorted(admit)}, but _eval_fn can invoke {sorted(invoke | {'KGFn'})}: a Python callable passed as an argument and applied through x(...) is never called (the argument is returned instead)")
 
 
+def check_assignment_stores_the_object(ctx, repo, rid):
+    """klong[name] = v binds the OBJECT v: KlongInterpreter.__setitem__ hands its value parameter to the context as it is (no copy, no
+    conversion, no re-binding of the parameter on the way).  Aliases made by `E::D` / `d::x` then see every in-situ update."""
+    f = repo.fn("interpreter:KlongInterpreter.__setitem__")
+    ctx.instance(rid, f.fq)
+    vparam = f.params()[-1]
+    rebinds = [n for n in walk_local(f.node) if isinstance(n, ast.Name) and n.id == vparam and isinstance(n.ctx, ast.Store)]
+    stores = [n for n in walk_local(f.node) if isinstance(n, ast.Assign) and any(isinstance(t, ast.Subscript) and "_context" in src(t.value) for t in n.targets)]
+    ok = not rebinds and len(stores) == 1 and isinstance(stores[0].value, ast.Name) and stores[0].value.id == vparam
+    ctx.ob(rid, f.fq, f"the context receives the value parameter `{vparam}` itself", ok, node=(rebinds[0]._parent if rebinds else (stores[0] if stores else f.node)),
+           construct="assignment stores a copy / a converted value",
+           msg=f"klong[name] = value does not store the value it was given (`{vparam}` is re-bound or the store takes `{src(stores[0].value)[:40] if stores else '?'}`): a dictionary assigned to a second name "
+               "is a different object afterwards, so updates made through one name are invisible through the other")
+
+
 def _r4(ctx, repo):
+    check_assignment_stores_the_object(ctx, repo, "C09-R4")
     scv = repo.fn("interpreter:set_context_var")
     ctx.instance("C09-R4", scv.fq)
     params = scv.params()
@@ -565,6 +581,8 @@ MUTATION_SCOPE = ['types:KGLambda.__init__',
                   'interpreter:KlongInterpreter.__delitem__']
 
 SEEDS = [
+    Seed("setitem-copies-dicts", "fault", "interpreter", "        k = k if isinstance(k, KGSym) else KGSym(k)\n        self._context[k] = v\n",
+         "        k = k if isinstance(k, KGSym) else KGSym(k)\n        if type(v) is dict:\n            v = dict(v)\n        self._context[k] = v\n", rule="C09-R4"),
     Seed("param-names-from-code-object", "fault", "types", "        params = args or safe_inspect(fn)", "        params = args or (fn.__code__.co_varnames[:fn.__code__.co_argcount] if hasattr(fn, '__code__') else safe_inspect(fn))", rule="C09-R1"),
     Seed("found-symbol-first", "fault", "types", "        self._sym = sym if sym is not None else self._find_symbol(fn)", "        self._sym = self._find_symbol(fn) or sym", rule="C09-R3"),
     Seed("refactor-sym-or-search", "refactor", "types", "        self._sym = sym if sym is not None else self._find_symbol(fn)", "        self._sym = sym or self._find_symbol(fn)"),
